@@ -584,6 +584,36 @@ pub fn main(args: &[String]) {
             let (ch, ct) = c.run();
             println!("{:#?}\ncontainer style {:#?}\nchild style {:#?}\nchild {:#?}\ncontainer {:#?}", c, c.container_style(), c.child_style(), ch, ct);
         }
+        "witness" => {
+            // the witness of C11_end_grid_negative_area_refuted on the implementation, for the three container kinds:
+            // container 10 wide, border 4 + 4, overflow-y: scroll with a 15 wide scrollbar; child right: 0, 5 x 5
+            for kind in 0..3i64 {
+                let mut c = gen_case(0, kind as u64);
+                let z = Dv::len(0.0);
+                c.kind = kind;
+                c.csize = [Dv::len(10.0), Dv::len(50.0)];
+                c.cpad = [z; 4];
+                c.cborder = [Dv::len(4.0), Dv::len(4.0), z, z];
+                c.overflow = [0, 3];
+                c.scrollbar_width = 15f32.to_bits();
+                c.cbox = 0;
+                c.avail = [(2, 100f32.to_bits()), (2, 100f32.to_bits())];
+                c.sibling = 0;
+                c.bbox = 0;
+                c.aspect = (0, 0);
+                c.inset = [Dv::auto(), z, z, Dv::auto()];
+                c.margin = [z; 4];
+                c.size = [Dv::len(5.0), Dv::len(5.0)];
+                c.min = [Dv::auto(); 2];
+                c.max = [Dv::auto(); 2];
+                c.pad = [z; 4];
+                c.border = [z; 4];
+                let (ch, ct) = c.run();
+                let end = ct.size.width - ct.border.right - ct.scrollbar_size.width;
+                let residual = end - (ch.location.x + ch.size.width + ch.margin.right);
+                println!("WITNESS {} x={} padding_box_end={} residual={} fails={}", ["block", "flex", "grid"][kind as usize], ch.location.x, end, residual, (residual.abs() > 1e-3) as u8);
+            }
+        }
         "oracle" => {
             let seed: u64 = args[1].parse().unwrap();
             let n: u64 = args[2].parse().unwrap();
